@@ -153,34 +153,50 @@ def run(res, proofs_ok, proofs_why, only=None):
 
 
 def phc_part(res, rng):
-    """`upd` lines (see harness/src/updater.rs): the PHC error bound is added to the bound of a
-    synchronised report, verbatim, and nothing is added when it is 0."""
-    lines = []
-    for _ in range(40 if res.tier == "quick" else 2000):
-        d, e, o = cfloat.encode(rng.uniform(1e-4, 0.2)), cfloat.encode(rng.uniform(1e-6, 0.05)), cfloat.encode(rng.uniform(-0.05, 0.05))
-        phc = rng.choice([0, 1, 12345, rng.randrange(10 ** 6), rng.randrange(2 ** 40)])
-        # one report: leap 0, fresh reference time, interval word for 4 s
-        lines.append("upd 1000 1 r %d %d %d 0 %d 0 0 0 %d 100 0" % (d, e, o, cfloat.word(1 << 23, 4), phc))
+    """`upd` lines (see harness/src/updater.rs): histories of 1..4 synchronised reports through the
+    real process_messages, with jumps of delay / dispersion / offset / PHC error bound between
+    consecutive reports.  Every published bound must be the sum of *its own* report plus that
+    report's PHC error bound (added verbatim; nothing added when it is 0)."""
+    lines, metas = [], []
+    itv = cfloat.word(1 << 23, 4)
+    for _ in range(120 if res.tier == "quick" else 5000):
+        n = rng.randrange(1, 5)
+        t = rng.randrange(10, 10 ** 5)
+        parts, meta = ["upd", str(rng.choice([1000, 50000, 10 ** 6])), str(n)], []
+        for _k in range(n):
+            scale = rng.choice([1e-6, 1e-4, 1e-2, 1.0])      # jumps of several orders of magnitude
+            d, e, o = cfloat.encode(rng.uniform(0, 0.2) * scale), cfloat.encode(rng.uniform(0, 0.5) * scale), cfloat.encode(rng.uniform(-0.05, 0.05) * scale)
+            phc = rng.choice([0, 0, 1, 12345, rng.randrange(10 ** 6), rng.randrange(2 ** 40)])
+            t += rng.randrange(1, 20)
+            parts += ["r", str(d), str(e), str(o), str(rng.randrange(3)), str(itv), "0", "0", "0", str(phc), str(t), str(rng.randrange(NS))]
+            meta.append((d, e, o, phc))
+        lines.append(" ".join(parts))
+        metas.append(meta)
     model = c.run_model(lines)
     impl = c.run_lines(c.build_harness("debug")[0], lines)
     res.evaluations += len(lines)
     bad, diffs = [], 0
-    for ln, m, i in zip(lines, model, impl):
-        t = ln.split()
-        d, e, o, phc = int(t[4]), int(t[5]), int(t[6]), int(t[12])
+    for ln, meta, m, i in zip(lines, metas, model, impl):
         if i != m:
             diffs += 1
-        rec = i.split()   # n  then per record: as_s as_n va_s va_n bound drift status
-        b = int(rec[5])
-        base = c.run_model(["bnd %d %d %d" % (d, e, o)])[0] if False else None
-        s = exact_sum_ns(d, e, o)
-        if b - phc < s - 4 * U * s or not (b - phc < s * (1 + 5 * U) + 1):
-            bad.append({"case": ln, "impl": i, "model": m, "why": ["published bound %d is not sum + PHC error bound %d" % (b, phc)]})
-    res.oblige("correspondence:process_clock_update adds the PHC error bound", diffs == 0)
-    res.count("gen:phc-term", len(lines))
+        rec = i.split()
+        if rec[0] in ("panic", "MISMATCH") or int(rec[0]) != len(meta):
+            bad.append({"case": ln, "impl": i, "model": m, "why": ["%s instead of %d publications" % (i[:60], len(meta))]})
+            continue
+        if len(meta) > 1:
+            res.nontriv(ln)
+        for k, (d, e, o, phc) in enumerate(meta):
+            b = int(rec[1 + 7 * k + 4])
+            s = exact_sum_ns(d, e, o)
+            if b - phc < s - 4 * U * s or not (b - phc < s * (1 + 5 * U) + 1):
+                bad.append({"case": ln, "impl": i, "model": m,
+                            "why": ["record %d: published bound %d is not the sum %s ns of its report plus the PHC error bound %d" % (k, b, float(s), phc)]})
+                break
+    res.oblige("correspondence:process_clock_update publishes bound + PHC error bound of each synchronised report", diffs == 0)
+    res.count("gen:published-bound-histories", len(lines))
     if diffs and not bad:
         bad_first = [{"case": ln, "impl": i, "model": m} for ln, m, i in zip(lines, model, impl) if i != m][:3]
-        res.violation({"property": "C07", "kind": "obligation", "obligation": "correspondence:process_clock_update (PHC term)",
+        res.violation({"property": "C07", "kind": "obligation", "obligation": "correspondence:process_clock_update (published bound)",
                        "first_differences": bad_first}, found_input=False)
     return bad
 
